@@ -24,13 +24,14 @@ def main(argv):
             tier = argv[2]
     core.use_repo()
     mod = importlib.import_module(f"props.{prop.lower()}")
-    ctx = core.Ctx(prop, tier)
     if replay:
         case = json.loads(Path(replay).read_text())
+        ctx = core.Ctx(prop, case.get("tier", "quick"), seed=case.get("seed"), clean=False)
         if not hasattr(mod, "replay"):
             print(f"{prop}: no replay support; re-run ./check {prop} {case.get('tier','quick')} with VERIF_SEED={case.get('seed')}")
             return 2
         return mod.replay(ctx, case)
+    ctx = core.Ctx(prop, tier)
     try:
         return mod.run(ctx)
     except Exception:
